@@ -529,6 +529,14 @@ func (w *MutWorld) callTaint(fn *ssa.Function, call *ssa.Call, get func(ssa.Valu
 		}
 		return
 	}
+	// slices.Grow / slices.Clip hand back the SAME backing array (Grow whenever the capacity already suffices): the
+	// result is as published as the argument
+	if strings.HasPrefix(name, "slices.Grow") || strings.HasPrefix(name, "slices.Clip") {
+		if len(cc.Args) > 0 {
+			set(call, get(cc.Args[0]))
+		}
+		return
+	}
 	if cc.IsInvoke() {
 		// reflection handles alias their message; getters on published interfaces yield published values
 		m := cc.Method.Name()
@@ -675,6 +683,13 @@ func (w *MutWorld) callSinks(fn *ssa.Function, call *ssa.Call, get func(ssa.Valu
 			if len(cc.Args) > 0 && get(cc.Args[0])&TSelf != 0 {
 				add(call, b.Name()+" on", describeAddr(cc.Args[0]))
 			}
+		}
+		return
+	}
+	// slices.Insert / Delete / Replace shift the elements of their argument in place when the capacity allows
+	if strings.HasPrefix(name, "slices.Insert") || strings.HasPrefix(name, "slices.Delete") || strings.HasPrefix(name, "slices.Replace") {
+		if len(cc.Args) > 0 && get(cc.Args[0])&TSelf != 0 {
+			add(call, "in-place "+strings.SplitN(name, "[", 2)[0]+" on", describeAddr(cc.Args[0]))
 		}
 		return
 	}
